@@ -192,7 +192,7 @@ def run_property(prop, tier, seed, replay=None):
     if rc == 0 and merged["inconclusive"]:
         rc = 2
         for r in merged["inconclusive"][:10]:
-            lines.append(f"INCONCLUSIVE property={prop} reason={r[:400]}")
+            lines.append(f"INCONCLUSIVE property={prop} reason={r[:3000]}")
 
     wall = time.time() - t0
     samples = merged["samples"][:MAX_SAMPLES] or [{"note": "no sample recorded"}]
